@@ -161,6 +161,10 @@ func (s *StrategyChoiceModule) set(interest *spec.Interest, pitToken []byte, inF
 			s.manager.sendResponse(response, interest, pitToken, inFace)
 			return
 		}
+		// Store the version in its canonical encoding: the forwarding threads look a strategy
+		// up by exact name, and the same number can be written with more bytes than needed
+		n := len(s.strategyPrefix) + 1
+		params.Strategy.Name = append(params.Strategy.Name[:n:n], enc.NewVersionComponent(uint64(strategyVersion)))
 	} else {
 		// Add missing version information to strategy name
 		params.Strategy.Name = append(params.Strategy.Name, enc.NewVersionComponent(strategyVersion))
